@@ -9,6 +9,7 @@ and the per-seed trace digests must be identical.
 """
 import argparse
 import os
+import shutil
 import subprocess
 import sys
 import tempfile
@@ -20,9 +21,13 @@ sys.path.insert(0, VERIF)
 
 def run(prop, count, seed, jobs, hashseed, out):
     env = dict(os.environ, VERIF_HASHSEED=str(hashseed), PYTHONHASHSEED=str(hashseed))
-    r = subprocess.run(["/venv/bin/python", os.path.join(VERIF, "check.py"), prop, "--count", str(count), "--seed", str(seed), "--jobs", str(jobs),
-                        "--no-evidence", "--dump-digests", out, "--replay-dir", tempfile.mkdtemp(prefix="rp_det_")],
-                       env=env, capture_output=True, text=True, timeout=1800)
+    rp = tempfile.mkdtemp(prefix="rp_det_")
+    try:
+        r = subprocess.run(["/venv/bin/python", os.path.join(VERIF, "check.py"), prop, "--count", str(count), "--seed", str(seed), "--jobs", str(jobs),
+                            "--no-evidence", "--dump-digests", out, "--replay-dir", rp],
+                           env=env, capture_output=True, text=True, timeout=1800)
+    finally:
+        shutil.rmtree(rp, ignore_errors=True)
     if r.returncode not in (0, 1):
         print(r.stdout[-2000:], r.stderr[-2000:])
         raise SystemExit(f"{prop}: harness error rc={r.returncode}")
@@ -54,6 +59,7 @@ def main():
                 if x != y:
                     print("   first divergence:", x, "|", y)
                     break
+    shutil.rmtree(tmp, ignore_errors=True)
     return 1 if bad else 0
 
 
